@@ -269,6 +269,20 @@ def synth(name, c, rng, attr=''):
         return rng.choice(['nn', None, 3])
     if name in ('dtype', 'dtypes'):
         return rng.choice([float, object, str, 'int64', bool])
+    if name == 'values' and attr.endswith('searchsorted'):
+        # an element, a list or an array of the kind of values the receiver is searched in
+        import static_frame as sf
+        src = np.asarray(c.values)
+        if src.ndim != 1 or not len(src):
+            src = np.array([1, 2, 3])
+        picks = [src[rng.randrange(len(src))] for _ in range(rng.randint(1, 3))]
+        form = rng.choice(['element', 'list', 'array', 'array'])
+        if form == 'element':
+            return picks[0]
+        if form == 'list':
+            return list(picks)
+        arr = np.array(picks, dtype=src.dtype if src.dtype != object else object)
+        return arr
     if name in ('other', 'others', 'container', 'containers', 'values', 'items', 'labels'):
         return _other_for(c, rng, name, attr)
     if name in ('left_depth_level', 'right_depth_level'):
@@ -732,7 +746,8 @@ def _check_go_alias(case, ctx):
 ALIAS_SITES = ['Series', 'Series_index', 'Frame_2d', 'Frame_index', 'Frame_columns', 'Frame_from_items', 'Frame_from_fields', 'Frame_from_dict',
                'Frame_from_concat_arrays', 'Index', 'IndexDate', 'IndexHierarchy_from_labels_array', 'IndexHierarchy_from_product', 'TypeBlocks_from_blocks',
                'Series_assign', 'Frame_assign', 'Series_fillna', 'Frame_insert', 'Series_reindex_own', 'Frame_from_records_array', 'Series_from_concat',
-               'Frame_from_overlay', 'Series_isin', 'IndexHierarchy_from_index_items', 'Frame_bloc_assign', 'Series_from_items']
+               'Frame_from_overlay', 'Series_isin', 'IndexHierarchy_from_index_items', 'Frame_bloc_assign', 'Series_from_items',
+               'Frame_from_structured_array', 'Frame_from_structured_array_2d', 'Frame_from_records_structured']
 
 
 def _other_value(arr):
@@ -845,6 +860,16 @@ def _check_alias(case, ctx):
         elif site == 'Series_isin':
             base = sf.Series(arr.copy())
             c = base.isin(arr)
+        elif site in ('Frame_from_structured_array', 'Frame_from_records_structured'):
+            rec = np.empty(n, dtype=[('p', arr.dtype), ('q', arr.dtype)])
+            rec['p'] = arr
+            rec['q'] = arr[::-1]
+            args = [rec]
+            c = sf.Frame.from_structured_array(rec) if site == 'Frame_from_structured_array' else sf.Frame.from_records(rec)
+        elif site == 'Frame_from_structured_array_2d':
+            arr = np.array(arr.reshape(n, 1).repeat(2, axis=1))
+            args = [arr]
+            c = sf.Frame.from_structured_array(arr)
         else:
             raise KeyError(site)
     except Exception as e:
@@ -862,6 +887,13 @@ def _check_alias(case, ctx):
                 ctx.violation('caller_array_shared', detail={'site': site, 'path': path}, klass=dict(klass, path=_short(path)))
                 return
     for a in args:
+        if a.dtype.names:
+            for nm in a.dtype.names:
+                try:
+                    a[nm][...] = _other_value(a[nm])
+                except Exception:
+                    pass
+            continue
         try:
             a[...] = _other_value(a)
         except Exception:
